@@ -33,8 +33,9 @@ then for every position p:  inserting N at p keeps the children in specification
 create_sub_element_at: Ok ==> the range is Ok((a, b)), a <= position <= b, and the content is the old content with the new element
 inserted at `position` (nothing else changed); position outside the range ==> Err and the content is unchanged.
 
-Callees: the specification lookups are leaves carrying the contracts that unit lookups proves (plus: find_sub_element is a function of
-its arguments -- find_fn -- which no postcondition can express for an exec function; it reads only immutable statics).
+Callees: the specification lookups are leaves carrying the contracts that unit lookups proves -- among them find_is: find_sub_element
+returns exactly find_from(type, 0, name, version), the depth-first first hit in listing order, so "the index list of child i" is a spec
+function of the node and no determinism assumption is needed.
 `Vec<usize>::cmp` is the verified helper vx_lex_cmp (lexicographic order, as documented for Vec).
 
 Rules R39: `AutosarDataError::Variant { .. }` / `AutosarDataError::InvalidPosition` -> opaque AutosarDataError::VxOther(0);
@@ -94,8 +95,6 @@ pub fn vx_new_element(parent: WeakElement, elemname: ElementName, elemtype: Elem
     ensures name_of(r) == elemname, type_of(r) == elemtype
 { unimplemented!() }
 
-// find_sub_element reads only immutable statics: it is a function of its arguments
-pub uninterp spec fn find_fn(t: ElementType, name: ElementName, v: u32) -> Option<(ElementType, Vec<usize>)>;
 
 pub open spec fn lex_cmp(a: Seq<usize>, b: Seq<usize>) -> core::cmp::Ordering
     decreases a.len()
@@ -170,10 +169,10 @@ impl ElementRaw {
     // index list of child i (None: character data, or a child that is not listed for the version)
     pub open spec fn kid(&self, i: int, v: u32) -> Option<Seq<usize>> {
         match self.content@[i] {
-            ElementContent::Element(e) => match find_fn(self.elemtype, name_of(e), v) {
-                Some((_, p)) => Some(p@),
+            ElementContent::Element(e) => match find_from(self.t(), 0, name_of(e), v) {
+                Some((_, p)) => Some(p),
                 // a child that is not listed for the version (lenient loading) is placed by the version(s) in which it exists
-                None => match find_fn(self.elemtype, name_of(e), u32::MAX) { Some((_, p)) => Some(p@), None => None },
+                None => match find_from(self.t(), 0, name_of(e), u32::MAX) { Some((_, p)) => Some(p), None => None },
             },
             ElementContent::CharacterData(_) => None,
         }
@@ -215,9 +214,9 @@ impl ElementRaw {
     pub open spec fn calc_post(&self, name: ElementName, v: u32, r: Result<(usize, usize), AutosarDataError>) -> bool {
         let mode = t_dt(self.t()).mode;
         if mode == ContentMode::Characters { r is Err }
-        else { match find_fn(self.elemtype, name, v) {
+        else { match find_from(self.t(), 0, name, v) {
             None => r is Err,
-            Some((_, n)) => if mode == ContentMode::Bag || mode == ContentMode::Mixed { r == Ok::<(usize, usize), AutosarDataError>((0usize, self.content@.len() as usize)) } else { self.range_post(n@, v, r) },
+            Some((_, n)) => if mode == ContentMode::Bag || mode == ContentMode::Mixed { r == Ok::<(usize, usize), AutosarDataError>((0usize, self.content@.len() as usize)) } else { self.range_post(n, v, r) },
         } }
     }
 
@@ -251,8 +250,8 @@ pub proof fn lemma_calc_unique(s: &ElementRaw, name: ElementName, v: u32, a: usi
 {
     let mode = t_dt(s.t()).mode;
     if mode != ContentMode::Characters {
-        match find_fn(s.elemtype, name, v) {
-            Some((_, n)) => { if !(mode == ContentMode::Bag || mode == ContentMode::Mixed) { lemma_range_unique(s, n@, v, a, b, c, d); } }
+        match find_from(s.t(), 0, name, v) {
+            Some((_, n)) => { if !(mode == ContentMode::Bag || mode == ContentMode::Mixed) { lemma_range_unique(s, n, v, a, b, c, d); } }
             None => {}
         }
     }
@@ -361,7 +360,7 @@ pub struct AutosarModel { pub opaque: u64 }
     lf = {f.label: f for f in lookups.fns(sz)}
     TT = 'self.elemtype.typ < n_dt()'
     inv = ['vx_i <= self.content@.len()', 'wf_tables()', 'wf_modes()', 'self.elemtype.typ < n_dt()', 'elemtype == self.elemtype',
-           'find_fn(self.elemtype, element_name, %s) matches Some((_, p)) && p@ == new_element_indices@' % V,
+           'find_from(self.t(), 0, element_name, %s) matches Some((_, p)) && p == new_element_indices@' % V,
            'hit(self.t(), new_element_indices@, element_name, %s)' % V, 'idx_ok(self.t(), new_element_indices@)', 'new_element_indices@.len() > 0',
            't_dt(self.t()).mode != ContentMode::Characters && t_dt(self.t()).mode != ContentMode::Bag && t_dt(self.t()).mode != ContentMode::Mixed',
            'self.prefix_ok(new_element_indices@, %s, start_pos as int, end_pos as int)' % V]
@@ -397,7 +396,7 @@ pub struct AutosarModel { pub opaque: u64 }
                   requires=['old(self).elemtype.typ < n_dt()', 'position <= old(self).content@.len()'],
                   ensures=['final(self).elemname == old(self).elemname && final(self).elemtype == old(self).elemtype',
                            'match r { Ok(e) => name_of(e) == element_name && final(self).content@ == old(self).content@.insert(position as int, ElementContent::Element(e)) '
-                           '&& (find_fn(old(self).elemtype, element_name, %s) matches Some((t, _)) && type_of(e) == t && !(sn_mask(t.typ as int) matches Some(m) && m & (%s) != 0)), Err(_) => final(self).content@ == old(self).content@ }' % (V, V)]),
+                           '&& (find_from(old(self).t(), 0, element_name, %s) matches Some((d, _)) && type_of(e) == et_of(d) && !(sn_mask(et_of(d).typ as int) matches Some(m) && m & (%s) != 0)), Err(_) => final(self).content@ == old(self).content@ }' % (V, V)]),
            FnSpec('create_sub_element', F, impl=IMPL_R, ret='r', body_sub=R39, requires=['old(self).elemtype.typ < n_dt()'],
                   ensures=['final(self).elemname == old(self).elemname && final(self).elemtype == old(self).elemtype',
                            'match r { Ok(e) => name_of(e) == element_name && exists|a: usize, b: usize| old(self).calc_post(element_name, %s, Ok((a, b))) && final(self).content@ == old(self).content@.insert(b as int, ElementContent::Element(e)), '
@@ -429,12 +428,10 @@ pub struct AutosarModel { pub opaque: u64 }
     u = Unit(name='insertrange', prop='C07', spec=spec, fns=fns,
              wrap={IMPL_R: 'impl ElementRaw', lookups.IMPL_ET: 'impl ElementType', lookups.IMPL_GT: 'impl GroupType'},
              dropped=['the element graph: ElementRaw is {elemname, elemtype, content: Vec<ElementContent>} (the fields these functions read; SmallVec -> Vec), a child Element is an opaque handle with uninterpreted name_of/type_of (the real accessors take the child lock); error payloads opaque (R39)',
-                      'specification lookups are leaves with the contracts proved in unit lookups, plus "find_sub_element is a function of its arguments" (find_fn); table contents uninterpreted (wf_tables, wf_modes discharged by native ground checks)',
+                      'specification lookups are leaves with the contracts proved in unit lookups (find_sub_element == the spec function find_from); table contents uninterpreted (wf_tables, wf_modes discharged by native ground checks)',
                       '`ElementRaw { .. }.wrap()` (Arc/RwLock allocation) is the leaf vx_new_element'])
     u.property_lemmas = {'lemma_range_is_exact': 'for children in specification order inside a sequence: inserting at p keeps the order <==> p lies in the reported range'}
     for name in LEAVES:
         f = copy.copy(lf[name])
-        if name == 'find_sub_element':
-            f.ensures = list(f.ensures) + ['r == find_fn(*self, target_name, version)']
         u.leaves.append((f, 'lookups'))
     return u
